@@ -38,6 +38,8 @@ pub enum Fault {
     /// send the head (full Content-Length) and the first k body bytes, then go silent for 4 seconds
     /// before closing: only a receive timeout of the client ends the wait earlier
     Stall(usize),
+    /// the whole body is delivered, but one more byte is promised (Content-Length + 1) and the connection stays open that many seconds
+    Linger(u64),
     /// correct status and body, but a malformed Content-Range header (variant: `*/0`, `0-13`, empty,
     /// non-ASCII, `bytes` without a range)
     BadContentRange(usize),
@@ -262,6 +264,7 @@ fn handle(mut stream: TcpStream, shared: Arc<Mutex<Shared>>) {
                 declared = Some(body.len());
                 close_after = Some((*k).min(body.len()));
             }
+            Fault::Linger(_) => declared = Some(body.len() + 1),
             Fault::ShortBody(k) => body.truncate(*k),
             Fault::WrongBytes => body.iter_mut().for_each(|x| *x ^= 0x55),
             Fault::ErrorPage(st) => {
@@ -345,6 +348,11 @@ fn handle(mut stream: TcpStream, shared: Arc<Mutex<Shared>>) {
         }
         if matches!(fault, Fault::Stall(_)) {
             std::thread::sleep(Duration::from_secs(4));
+        }
+        if let Fault::Linger(secs) = fault {
+            std::thread::sleep(Duration::from_secs(secs));
+            let _ = stream.shutdown(Shutdown::Both);
+            return;
         }
         if chunked && ok {
             ok = stream.write_all(b"0\r\n\r\n").is_ok() && stream.flush().is_ok();
